@@ -26,7 +26,9 @@
   symbolic instance `sym` below (a body is a stack of (key, direction) layers around a message) as witness; the
   driver runs `sym`.
   Not modelled: rendezvous relays and hs_session_keys, test-request and test-response, hidden-service messages,
-  inactivity sweeps (do_remove); remove_tunnel_delay > 0.
+  inactivity sweeps (do_remove).  remove_tunnel_delay: `Node.defer` = false is delay 0 (entry popped in the step that
+  removes it), true is delay > 0 (remove_* closes / sends the destroy at once and pops by id later: `popCircuit`, `popRelay`,
+  `popExit`); on_created's remove_exit_socket(remove_now=True) is immediate in both modes.
 -/
 namespace Ipv8.C05
 
@@ -81,6 +83,7 @@ structure Circ where
   unv : Option Hop
   retry : Nat      -- RetryRequestCache.packet_identifier + 1, 0 = no cache
   reCount : Nat    -- relay_early_count
+  closing : Bool := false     -- Circuit.close(): removal has been requested, the entry waits for remove_tunnel_delay
   deriving DecidableEq, Repr
 
 structure Relay where
@@ -125,9 +128,10 @@ structure Node where
   created : List Nat            -- CreatedRequestCache keys
   creates : List CreateReq
   nextKey : Nat
+  defer : Bool := false         -- remove_tunnel_delay > 0: remove_* only pops the entry when its sleep is over
   deriving DecidableEq, Repr
 
-def Node.init (i : Nat) : Node := ⟨i, [], [], [], [], [], 0⟩
+def Node.init (i : Nat) : Node := ⟨i, [], [], [], [], [], 0, false⟩
 
 inductive Out (B : Type) where
   | cell (dst : Nat) (c : Cell B)
@@ -161,6 +165,25 @@ def has {α : Type} (l : List (Nat × α)) (k : Nat) : Bool := (get l k).isSome
 
 def Node.inUse (n : Node) (cid : Nat) : Bool :=
   has n.circuits cid || has n.relays cid || has n.exits cid
+
+/-- remove_circuit up to its `await sleep(remove_tunnel_delay)`: the retry cache is popped and the circuit closed at
+    once; with delay 0 the entry is popped in the same step, otherwise later (`popCircuit`) -/
+def rmCircuit (n : Node) (cid : Nat) : Node :=
+  if n.defer then
+    match get n.circuits cid with
+    | some c => { n with circuits := set n.circuits cid { c with closing := true, retry := 0 } }
+    | none => n
+  else { n with circuits := del n.circuits cid }
+
+/-- remove_exit_socket / remove_relay (both directions) up to their sleep -/
+def rmExit (n : Node) (cid : Nat) : Node := if n.defer then n else { n with exits := del n.exits cid }
+def rmRelays (n : Node) (a b : Nat) : Node := if n.defer then n else { n with relays := del (del n.relays a) b }
+
+/-- the delayed `circuits.pop(id)` / `relay_from_to.pop(id)` / `exit_sockets.pop(id)`: they act by id on whatever is
+    there when the sleep is over -/
+def popCircuit (n : Node) (cid : Nat) : Node := { n with circuits := del n.circuits cid }
+def popRelay (n : Node) (cid : Nat) : Node := { n with relays := del n.relays cid }
+def popExit (n : Node) (cid : Nat) : Node := { n with exits := del n.exits cid }
 
 /-- `Circuit.hop`: first verified hop, else the unverified one -/
 def Circ.firstHop (c : Circ) : Option Hop :=
@@ -261,7 +284,7 @@ def oursCreated (n : Node) (cid : Nat) (circ : Circ) (key authPk dhRef : Nat) (c
   | some h =>
     if key = 0 then
       -- a DH half that is not a valid key: ValueError -> remove_circuit("error while verifying shared secret")
-      ({ n with circuits := del n.circuits cid }, [])
+      (rmCircuit n cid, [])
     else if authPk = h.peer ∧ dhRef = h.key then
       let circ1 : Circ := { circ with hops := circ.hops ++ [⟨h.peer, h.addr, key⟩], unv := none }
       if circ1.hops.length < circ1.goal then
@@ -273,7 +296,7 @@ def oursCreated (n : Node) (cid : Nat) (circ : Circ) (key authPk dhRef : Nat) (c
           match circ2.firstHop with
           | some fh => sendMsg A n1 fh.addr cid (.extend ident pk dh)
           | none => (n1, [])
-        | none => ({ n with circuits := del n.circuits cid }, [])     -- "no candidates to extend"
+        | none => (rmCircuit n cid, [])     -- "no candidates to extend"
       else
         ({ n with circuits := set n.circuits cid { circ1 with retry := 0 } }, [])
     else (n, [])
@@ -411,13 +434,13 @@ def processCell (n : Node) (src : Nat) (c : Cell B) (ch : Choice) : Node × List
 /-- on_destroy, third branch: an own circuit, destroyed by its first hop -/
 def destroyCircuit (n : Node) (signer cid : Nat) : Node × List (Out B) :=
   match get n.circuits cid with
-  | some c => if (c.firstHop.map Hop.peer) = some signer then ({ n with circuits := del n.circuits cid }, []) else (n, [])
+  | some c => if (c.firstHop.map Hop.peer) = some signer then (rmCircuit n cid, []) else (n, [])
   | none => (n, [])
 
 /-- on_destroy, second branch: an exit socket, destroyed by the peer it was created for -/
 def destroyLocal (n : Node) (signer cid : Nat) : Node × List (Out B) :=
   match get n.exits cid with
-  | some e => if signer = e.hop.peer then ({ n with exits := del n.exits cid }, []) else destroyCircuit n signer cid
+  | some e => if signer = e.hop.peer then (rmExit n cid, []) else destroyCircuit n signer cid
   | none => destroyCircuit n signer cid
 
 /-- on_destroy, first branch: `relays[cid]` exists, its pair exists and the pair's hop (the side `cid` belongs to) signed -/
@@ -436,7 +459,7 @@ def onDestroy (n : Node) (signer cid : Nat) (sigok : Bool) (reason : Nat) : Node
     match viaRelay n signer cid with
     | some nx =>
       -- remove_relay(cid, destroy=payload.reason): reason 0 is falsy, nothing is forwarded then
-      ({ n with relays := del (del n.relays cid) nx.next },
+      (rmRelays n cid nx.next,
        if reason = 0 then [] else [Out.destroy nx.hop.addr n.self nx.next reason])
     | none => destroyLocal n signer cid
 
@@ -445,7 +468,7 @@ def onDestroy (n : Node) (signer cid : Nat) (sigok : Bool) (reason : Nat) : Node
 /-- create_circuit + send_initial_create; the drawn id, first hop and identifier are inputs -/
 def apiCreate (n : Node) (cid goal hopPeer hopAddr ident : Nat) : Node × List (Out B) :=
   let dh := n.freshKey
-  let circ : Circ := ⟨goal, [], some ⟨hopPeer, hopAddr, dh⟩, ident, 0⟩
+  let circ : Circ := ⟨goal, [], some ⟨hopPeer, hopAddr, dh⟩, ident, 0, false⟩
   let n1 : Node := { n with circuits := set n.circuits cid circ, nextKey := n.nextKey + 1 }
   sendMsg A n1 hopAddr cid (.create ident n.self dh)
 
@@ -467,7 +490,7 @@ def apiTunnelData (n : Node) (cid org tag : Nat) : Node × List (Out B) :=
 def pingAll (n : Node) : List (Nat × Circ) → Node × List (Out B)
   | [] => (n, [])
   | (cid, c) :: t =>
-    match c.hops with
+    match (if c.closing then [] else c.hops) with
     | h :: _ =>
       let (n1, o1) := sendMsg A n h.addr cid (.ping 0)
       let (n2, o2) := pingAll n1 t
@@ -481,7 +504,7 @@ def apiPing (n : Node) : Node × List (Out B) := pingAll A n n.circuits
 def apiRemoveCircuit (n : Node) (cid : Nat) : Node × List (Out B) :=
   match get n.circuits cid with
   | some c =>
-    ({ n with circuits := del n.circuits cid },
+    (rmCircuit n cid,
      match c.firstHop with
      | some fh => [Out.destroy fh.addr n.self cid 1]
      | none => [])
@@ -490,19 +513,18 @@ def apiRemoveCircuit (n : Node) (cid : Nat) : Node × List (Out B) :=
 /-- remove_exit_socket(cid, destroy=1) -/
 def apiRemoveExit (n : Node) (cid : Nat) : Node × List (Out B) :=
   match get n.exits cid with
-  | some e => ({ n with exits := del n.exits cid }, [Out.destroy e.hop.addr n.self cid 1])
+  | some e => (rmExit n cid, [Out.destroy e.hop.addr n.self cid 1])
   | none => (n, [])
 
 /-- remove_relay(cid, destroy=1) followed by remove_relay(other, destroy=1) -/
 def apiRemoveRelay (n : Node) (cid : Nat) : Node × List (Out B) :=
   match get n.relays cid with
   | some r =>
-    let n1 : Node := { n with relays := del n.relays cid }
-    match get n1.relays r.next with
+    match (if r.next = cid then none else get n.relays r.next) with
     | some r2 =>
-      ({ n1 with relays := del n1.relays r.next },
+      (rmRelays n cid r.next,
        [Out.destroy r.hop.addr n.self r.next 1, Out.destroy r2.hop.addr n.self r2.next 1])
-    | none => (n1, [Out.destroy r.hop.addr n.self r.next 1])
+    | none => (rmRelays n cid cid, [Out.destroy r.hop.addr n.self r.next 1])
   | none => (n, [])
 
 /-! ### request-cache time-outs.  Every cache entry has its own timer in the code (CreatedRequestCache 60 s from
@@ -526,7 +548,7 @@ def expireRetry (n : Node) (cid : Nat) (ch : Choice) : Node × List (Out B) :=
     if circ.retry = 0 then (n, [])
     else
       match ch.ext with
-      | none => ({ n with circuits := del n.circuits cid }, [])
+      | none => (rmCircuit n cid, [])
       | some (pk, ident) =>
         let dh := n.freshKey
         match circ.hops with
@@ -554,6 +576,9 @@ inductive Ev (B : Type) where
   | expireCreated (cid : Nat)
   | expireCreate (num : Nat)
   | expireRetry (cid : Nat) (ch : Choice)
+  | popCircuit (cid : Nat)
+  | popRelay (cid : Nat)
+  | popExit (cid : Nat)
 
 def step {B : Type} (A : Aead B) (n : Node) : Ev B → Node × List (Out B)
   | .cell src c ch => processCell A n src c ch
@@ -569,6 +594,9 @@ def step {B : Type} (A : Aead B) (n : Node) : Ev B → Node × List (Out B)
   | .expireCreated cid => (expireCreated n cid, [])
   | .expireCreate num => (expireCreate n num, [])
   | .expireRetry cid ch => expireRetry A n cid ch
+  | .popCircuit cid => (popCircuit n cid, [])
+  | .popRelay cid => (popRelay n cid, [])
+  | .popExit cid => (popExit n cid, [])
 
 def run {B : Type} (A : Aead B) (n : Node) : List (Ev B) → Node
   | [] => n
